@@ -551,3 +551,32 @@ def replay(data):
     for v in r["verdicts"]:
         print("  verdict:", v["signature"], "-", v["what"], json.dumps(v.get("detail"), ensure_ascii=False, default=str)[:300])
     return not r["verdicts"]
+
+
+# --- P, the character-level model of parser.py (Model/StmtParse.v; tables regenerated by gens/gen_parser_tables.py):
+# Props/P.v holds P_parse_total (for every text, fuel 8*len+7 suffices and no partial operation of the parser -- indexing, int(), chr(), pop(), the assert -- is reachable); explore_p runs the model in coqc on the same texts as pdpy11.parser.parse and
+# compares the whole tree with every ctx_start/ctx_end offset and every diagnostic (severity, identifier, spans), plus the
+# model-free oracle "every offset lies within the file"
+import p_corr  # noqa: E402
+PROP_FILES = PROP_FILES + ["Props/P.v"]
+RUN_FILES = RUN_FILES + ["Run/PRun.v"]
+LEVEL_TEXT = LEVEL_TEXT + (" P (character-level parser model, Model/StmtParse.v): P_parse_total closes the parser part of this property at model level for every text (no length bound): the result is POk or PCritical, never a crash site and never out of fuel; tie = p_corr correspondence (whole tree + diagnostics) and the regenerated tables; CPython's recursion limit on deep nesting stays outside.")
+_explore_without_p = explore
+_replay_without_p = replay
+
+
+def explore(rep, br, tier, seed):
+    _explore_without_p(rep, br, tier, seed)
+    p_corr.explore_p(rep, tier, seed)
+
+
+def replay(data):
+    inp = data.get("input") or {}
+    if set(inp) <= {"text", "stream"} and "text" in inp:      # a finding of explore_p
+        kind, ser, info = p_corr.impl_parse(inp["text"])
+        oob = sorted(set(p_corr.LAST_OOB))
+        ans = p_corr.run_model([(inp["text"], p_corr.hash_ser(ser))]) if kind != "ood" else [0]
+        print("pdpy11.parser.parse:", kind, info[:200] if isinstance(info, str) else "", "| offsets outside the file:", oob[:6],
+              "| model agrees:", not (ans[0] & 1))
+        return kind != "exc" and not oob and not (ans[0] & 1)
+    return _replay_without_p(data)
